@@ -130,7 +130,10 @@ theorem runAll_spec {K : Type} (L : List (Ob K)) :
 
 /-! ### the index table as a bijection -/
 
-theorem IdxState.get_mem {s : IdxState} {u : Unk} (hu : s.get u ≠ 0) : (u, s.get u) ∈ s.tab := by
+/- `get_mem'`, `get_inj'`, `tab_length_eq_maxn`, `codeMatrixOf`: C05 has `IdxState.get_mem`, `get_inj`,
+   `maxn_eq_length` (Lemmas/LinAssemble.lean) and `Lin.codeMatrix` (Model/LinPass.lean, the list form);
+   the names differ so that `Props/C05.lean` and `Props/C07.lean` can be imported together. -/
+theorem IdxState.get_mem' {s : IdxState} {u : Unk} (hu : s.get u ≠ 0) : (u, s.get u) ∈ s.tab := by
   unfold IdxState.get at hu ⊢
   cases hf : s.tab.find? (fun e => e.1 = u) with
   | none => simp [hf] at hu
@@ -140,15 +143,15 @@ theorem IdxState.get_mem {s : IdxState} {u : Unk} (hu : s.get u ≠ 0) : (u, s.g
     simp only
     rw [← hk]; exact hm
 
-theorem IdxState.get_inj {s : IdxState} (h : s.WF) {u u' : Unk} (hu : s.get u ≠ 0) (e : s.get u = s.get u') :
+theorem IdxState.get_inj' {s : IdxState} (h : s.WF) {u u' : Unk} (hu : s.get u ≠ 0) (e : s.get u = s.get u') :
     u = u' := by
-  have m1 := IdxState.get_mem hu
-  have m2 := IdxState.get_mem (u := u') (by rw [← e]; exact hu)
+  have m1 := IdxState.get_mem' hu
+  have m2 := IdxState.get_mem' (u := u') (by rw [← e]; exact hu)
   have hnd : (s.tab.map Prod.snd).Nodup := by rw [h.vals]; exact List.nodup_reverse.2 (List.nodup_range' ..)
   have := List.inj_on_of_nodup_map hnd m1 m2 (by simp [e])
   exact (Prod.mk.inj this).1
 
-theorem IdxState.maxn_eq_length {s : IdxState} (h : s.WF) : s.tab.length = s.maxn := by
+theorem IdxState.tab_length_eq_maxn {s : IdxState} (h : s.WF) : s.tab.length = s.maxn := by
   have := congrArg List.length h.vals
   simpa using this
 
@@ -170,7 +173,7 @@ noncomputable def colEquiv (s : IdxState) (h : s.WF) (T : Finset Unk) (hT : ∀ 
         have h2 := (hT u.1).2 u.2
         have h3 := (hT u'.1).2 u'.2
         have e' : s.get u.1 - 1 = s.get u'.1 - 1 := by simpa using congrArg Fin.val e
-        exact Subtype.ext (IdxState.get_inj h h2 (by omega))
+        exact Subtype.ext (IdxState.get_inj' h h2 (by omega))
       · rw [Fintype.card_coe, Fintype.card_fin]
         have hTe : T = (s.tab.map Prod.fst).toFinset := by
           ext u
@@ -179,7 +182,7 @@ noncomputable def colEquiv (s : IdxState) (h : s.WF) (T : Finset Unk) (hT : ∀ 
           constructor
           · intro hne; by_contra hc; exact hne (this.2 hc)
           · intro hm hz; exact (this.1 hz) hm
-        rw [hTe, List.toFinset_card_of_nodup h.keys, List.length_map, IdxState.maxn_eq_length h])
+        rw [hTe, List.toFinset_card_of_nodup h.keys, List.length_map, IdxState.tab_length_eq_maxn h])
 
 theorem colEquiv_get (s : IdxState) (h : s.WF) (T : Finset Unk) (hT : ∀ u, s.get u ≠ 0 ↔ u ∈ T) (j : Fin s.maxn) :
     s.get ((colEquiv s h T hT).symm j).1 = j.1 + 1 := by
@@ -205,7 +208,7 @@ def touchedSet : Finset Unk := Finset.univ.biUnion (fun i => (touchedU (obs i)).
 def rowCoef (row : List (Nat × K)) (k : Nat) : K := ((row.filter (fun e => e.1 = k)).map Prod.snd).sum
 
 /-- the design matrix `project_equations` builds when the observations are processed in order `σ` -/
-def codeMatrix (σ : Equiv.Perm (Fin m)) : Matrix (Fin m) (Fin (finalState obs σ).maxn) K :=
+def codeMatrixOf (σ : Equiv.Perm (Fin m)) : Matrix (Fin m) (Fin (finalState obs σ).maxn) K :=
   fun r j => rowCoef ((rowsOf obs σ).getD r []) (j.1 + 1)
 
 /-- coefficient of the unknown `u` in an observation, by identity -/
@@ -245,8 +248,8 @@ noncomputable def colEq (σ : Equiv.Perm (Fin m)) : {u // u ∈ touchedSet obs} 
 
 /-- the matrix the code builds in order `σ` is the order-free matrix with rows permuted by `σ` and
     columns numbered by the final index table -/
-theorem codeMatrix_eq (σ : Equiv.Perm (Fin m)) :
-    codeMatrix obs σ = (identMatrix obs).submatrix σ (colEq obs hw σ).symm := by
+theorem codeMatrixOf_eq (σ : Equiv.Perm (Fin m)) :
+    codeMatrixOf obs σ = (identMatrix obs).submatrix σ (colEq obs hw σ).symm := by
   ext r j
   obtain ⟨_, _, hrows, hnz, _⟩ := runAll_spec (orderList obs σ) IdxState.init IdxState.wf_init (orderList_wt obs hw σ)
   have hr : (rowsOf obs σ).getD r [] = (pushes (obs (σ r)).evs).map
@@ -254,7 +257,7 @@ theorem codeMatrix_eq (σ : Equiv.Perm (Fin m)) :
     unfold rowsOf finalState
     rw [hrows, List.getD_eq_getElem?_getD, List.getElem?_map]
     simp [orderList, List.getElem?_ofFn]
-  simp only [codeMatrix, submatrix_apply, identMatrix, identCoef, rowCoef, hr, List.filter_map, List.map_map]
+  simp only [codeMatrixOf, submatrix_apply, identMatrix, identCoef, rowCoef, hr, List.filter_map, List.map_map]
   congr 1
   have hfil : (pushes (obs (σ r)).evs).filter
       ((fun e : Nat × K => decide (e.1 = j.1 + 1)) ∘ fun p => ((finalState obs σ).get ((obs (σ r)).name p.1 p.2.1), p.2.2)) =
@@ -267,7 +270,7 @@ theorem codeMatrix_eq (σ : Equiv.Perm (Fin m)) :
     simp only [Function.comp, decide_eq_decide]
     constructor
     · intro e
-      exact IdxState.get_inj (finalState_wf obs hw σ) hne (by rw [e]; exact hg.symm)
+      exact IdxState.get_inj' (finalState_wf obs hw σ) hne (by rw [e]; exact hg.symm)
     · intro e
       rw [e]; exact hg
   rw [hfil]
@@ -275,9 +278,9 @@ theorem codeMatrix_eq (σ : Equiv.Perm (Fin m)) :
 
 /-- the design matrices of two processing orders of the same observations differ by the row
     permutation `ρ = τ then σ⁻¹` and the column renumbering `κ = index_σ ∘ index_τ⁻¹` -/
-theorem codeMatrix_perm (σ τ : Equiv.Perm (Fin m)) :
-    codeMatrix obs τ = (codeMatrix obs σ).submatrix (τ.trans σ.symm) ((colEq obs hw τ).symm.trans (colEq obs hw σ)) := by
-  rw [codeMatrix_eq obs hw σ, codeMatrix_eq obs hw τ]
+theorem codeMatrixOf_perm (σ τ : Equiv.Perm (Fin m)) :
+    codeMatrixOf obs τ = (codeMatrixOf obs σ).submatrix (τ.trans σ.symm) ((colEq obs hw τ).symm.trans (colEq obs hw σ)) := by
+  rw [codeMatrixOf_eq obs hw σ, codeMatrixOf_eq obs hw τ]
   ext r j
   simp
 
